@@ -72,6 +72,9 @@ def spec_entry(eI, eJ, eK, metric_pos):
 
 
 # --------------------------------------------------------------------------- building the algebra stand-in from source
+NAMED_OPTIONS = {"graded": True, "cse": False, "wrapper": "WRAPPER-TOKEN"}    # options handed to fromname in the probe call
+
+
 def named_algebras(repo):
     """What Algebra.fromname constructs for each name it knows: {name: (pqr, basis, keyword names)}.  The classmethod
     is interpreted from source with the class replaced by a recorder of the constructor call; candidate names are the
@@ -96,7 +99,7 @@ def named_algebras(repo):
             return Obj("Algebra", {"fmt": "<Algebra>"})
         it.class_call_hook = hook
         try:
-            res = it.run("algebra.Algebra.fromname", [ClassRef("Algebra"), name])
+            res = it.run("algebra.Algebra.fromname", [ClassRef("Algebra"), name], dict(NAMED_OPTIONS))
         except NoValue as exc:
             raise Unknown("algebra.Algebra.fromname", f"fromname({name!r}) cannot be evaluated: {exc}", fn)
         if res[0] == "raise" or "call" not in seen:
@@ -108,7 +111,9 @@ def named_algebras(repo):
         basis = kwargs.get("basis")
         if not all(isinstance(vals[k], int) for k in vals):
             raise Unknown("algebra.Algebra.fromname", f"fromname({name!r}) constructs Algebra({args}, {kwargs})", fn)
-        out[name] = ([vals["p"], vals["q"], vals["r"]], list(basis) if isinstance(basis, (list, tuple)) else None, sorted(kwargs))
+        passed = {k: kwargs.get(k, "<missing>") for k in NAMED_OPTIONS}
+        out[name] = ([vals["p"], vals["q"], vals["r"]], list(basis) if isinstance(basis, (list, tuple)) else None,
+                     sorted(k for k in kwargs if k not in NAMED_OPTIONS), passed)
     repo._named_algebras = out
     return out
 
@@ -118,11 +123,11 @@ def read_named_basis(repo, name):
     table = named_algebras(repo)
     if name not in table or table[name][1] is None:
         raise Unknown("algebra.Algebra.fromname", f"named basis {name} not found", fn)
-    pqr, basis, _ = table[name]
+    pqr, basis = table[name][:2]
     return list(basis), list(pqr)
 
 
-def build_algebra(repo, p=0, q=0, r=0, signature=None, start_index=None, basis=None):
+def build_algebra(repo, p=0, q=0, r=0, signature=None, start_index=None, basis=None, _prepare=None):
     """Run Algebra.__post_init__ from source on a stand-in instance; returns (interp, algebra object)."""
     it = make_interp(repo, max_steps=3_000_000)
     it.instance_classes.update({"Algebra": "algebra.Algebra", "BladeDict": "algebra.BladeDict"})
@@ -144,6 +149,8 @@ def build_algebra(repo, p=0, q=0, r=0, signature=None, start_index=None, basis=N
                     except Exception:
                         pass
     it.algebra = alg
+    if _prepare is not None:
+        _prepare(it, alg)
     out = it.run("algebra.Algebra.__post_init__", [alg])
     if out[0] == "raise":
         raise Raised(out[1])
